@@ -106,7 +106,7 @@ def gen_targets(cs, quick):
                 return a
             return single if full else single_red
         # one name: every name form
-        for n in ['a', 'g:p', 'g:*', 'h:', ':x', 'a:a', 'all:x', 'firewall']:   # `all` only as a whole word
+        for n in ['a', 'g:p', 'g:*', 'h:', ':x', 'a:a', 'all:x', 'firewall', 'web:worker:0', 'web:w:*']:   # split at the FIRST colon
             for ans in answers_for(n, True):
                 cs.add(pre + n, [up_ok(), ans], 'targets', targets=(act, [n], [ans]))
         # two names: all codes x all codes
@@ -226,9 +226,13 @@ INFO_SETS = [
     [['a-very-long-process-name-indeed-0123456789', 'group-with-a-long-name', 40, 'STOPPING', '', 9],
      ['a', 'a', 1000, 'UNKNOWN', '', 0]],
     [['a', 'b', 20, 'RUNNING', 'x', 1], ['b', 'a', 20, 'RUNNING', 'y', 2], ['a', 'a', 20, 'RUNNING', 'z', 3]],
+    # process_name=worker:%(process_num)d : the namespec splits at the first colon only
+    [['worker:0', 'web', 20, 'RUNNING', 'pid 8', 8], ['worker:1', 'web', 0, 'STOPPED', 'Not started', 0],
+     ['web', 'web', 20, 'RUNNING', 'pid 9', 9]],
 ]
 STATUS_ARGS = ['', 'all', 'a', 'g:*', 'g:p', 'g:q', 'b', 'zz', 'g:', 'g:zz', 'zz:*', 'a g:*', 'a zz', 'zz a',
-               'zz yy:*', 'a a', 'g:* g:p', 'a all zz', 'a:a', 'b:a', 'a b g:q']
+               'zz yy:*', 'a a', 'g:* g:p', 'a all zz', 'a:a', 'b:a', 'a b g:q', 'web:worker:0', 'web:worker:1 web:*',
+               'web:worker:0 web:worker:9', 'web:worker']
 
 
 def gen_status(cs, quick):
@@ -318,6 +322,7 @@ def gen_tail(cs, quick):
               [['sock', 111, 'Connection refused'], ['sock', 104, 'Connection reset by peer'],
                ['proto', 401, 'Unauthorized'], ['proto', 500, 'Internal Server Error']]
     whats = [('proc', 'a', False, ''), ('proc', 'a', False, ' stdout'), ('proc', 'g:p', True, ' stderr'),
+             ('proc', 'web:worker:0', False, ''),
              ('proc', 'BAD_NAME', True, ' STDERR'), ('main', None, False, '')]
     sizes = [None, 0, 1, 5, 1600, -5, 10 ** 12, 'f']
     for kind, name, se, chan in whats:
@@ -955,6 +960,51 @@ def judge_main(chk):
     return n
 
 
+def judge_real_transport(chk):
+    """Several targets with names of different lengths over the REAL SupervisorTransport (one persistent
+    connection per proxy, Content-Length per request) against a threaded HTTP XML-RPC server: every target
+    gets its own result line, worded after the server's answer for it, and the server receives every call."""
+    import c20_proxy as H
+    F = faults()
+    short, long_ = 'a', 'a_much_longer_process_name_0123456789'
+    cmds = []
+    for x, y in ((short, long_), (long_, short)):
+        cmds += [('stop %s %s' % (x, y), 'stopProcess', '%s: stopped'), ('start %s %s' % (x, y), 'startProcess', '%s: started'),
+                 ('signal HUP %s %s' % (x, y), 'signalProcess', '%s: signalled'), ('clear %s %s' % (x, y), 'clearProcessLogs', '%s: cleared'),
+                 ('add %s %s' % (x, y), 'addProcessGroup', '%s: added process group'),
+                 ('remove %s %s' % (x, y), 'removeProcessGroup', '%s: removed process group'),
+                 ('pid %s %s' % (x, y), 'getProcessInfo', None)]
+    n = 0
+    for line, method, tmpl in cmds:
+        for fault_on in (None, 'second'):
+            names = line.split()[-2:]
+            flt = {}
+            if fault_on and method in ('stopProcess', 'startProcess', 'signalProcess', 'clearProcessLogs', 'getProcessInfo'):
+                flt = {names[1]: (F['BAD_NAME'], 'BAD_NAME: %s' % names[1])}
+            elif fault_on:
+                continue
+            with H.RealHttpServer(flt) as srv:
+                r = H.run_real_transport(line, srv)
+                got_calls = [(m.split('.', 1)[-1], p[0] if p else None) for m, p in srv.calls if not m.endswith('getVersion')]
+            n += 1
+            chk.dist('family:real-transport')
+            exp_calls = [(method, nm) for nm in names]
+            exp = []
+            for nm in names:
+                if nm in flt:
+                    exp.append('No such process %s\n' % nm if method == 'getProcessInfo' else '%s: ERROR (no such process)\n' % nm)
+                else:
+                    exp.append('77\n' if tmpl is None else (tmpl % nm) + '\n')
+            exp_status = 1 if flt else 0
+            if r['escaped'] or r['msgs'] != exp or r['status'] != exp_status or got_calls != exp_calls:
+                _direct(chk, {'kind': 'real SupervisorTransport against a threaded HTTP server: with several targets of different '
+                                      'name lengths every target must get its own result line and the server must receive every call',
+                              'line': line, 'script': {'server_faults': flt}, 'printed': r['msgs'], 'exitstatus': r['status'],
+                              'escaped': r['escaped'], 'calls_received_by_server': got_calls,
+                              'expected_lines': exp, 'expected_status': exp_status, 'expected_calls': exp_calls})
+    return n
+
+
 def judge_plugins(chk, pairs):
     """A client configuration with one and with two extra [ctlplugin:*] sections (real ClientOptions
     realized from a temporary file; factories in harness/c20_plugins.py): built-in actions behave exactly
@@ -1108,7 +1158,7 @@ def _run(chk, wd, proved, only):
     else:
         cases, n_exh = build_cases(chk)
     terms, metas, mons, distinct = run_cases(chk, cases, wd)
-    n_main = judge_main(chk) if only is None else 0
+    n_main = (judge_main(chk) + judge_real_transport(chk)) if only is None else 0
     # 1. model against implementation
     import c20_proxy as H
     bad, errs = H.compare(vlib, IMPORTS, 'ctl_case', 'check_case', terms, wd, 'corr', PREAMBLE)
